@@ -170,15 +170,6 @@ pub open spec fn uncased_sw(s: Seq<u8>, p: Seq<u8>) -> bool {
 pub open spec fn double_hyphen_at(buf: Seq<u8>, p: int) -> bool {
     3 <= p < buf.len() - 2 && buf[p] == 0x2d && buf[p + 1] == 0x2d
 }
-impl BangType {
-    pub open spec fn spec_to_err(&self) -> SyntaxError {
-        match self {
-            BangType::CData => SyntaxError::UnclosedCData,
-            BangType::Comment => SyntaxError::UnclosedComment,
-            BangType::DocType(_) => SyntaxError::UnclosedDoctype,
-        }
-    }
-}
 
 spec fn post_emit_bang<'b>(pre: &ReaderState, post: &ReaderState, bang_type: BangType, buf: Seq<u8>, r: core::result::Result<Event<'b>, Error>) -> bool {
                 &&& post.same_control(pre) && post.same_stack(pre)
